@@ -143,7 +143,14 @@ def gen_case(rng, params):
     chunk = rng.choice([1, 3, 64, params["readChunkSize"], params["readChunkSize"], params["readChunkSize"]])
     known = []
     ops = [gen_op(rng, prompt, known) for _ in range(rng.choice([1, 1, 2, 2, 3, 4]))]
-    return " ".join([hx(prompt), str(chunk), lst(str(c) for c in gen_cuts(rng))] + ops)
+    cuts = gen_cuts(rng)
+    full = any(f[0] != "e" and prompt in unhx(f[2]).replace(b"\n", b"\r\n") for f in (o.split("/") for o in ops))
+    if full and rng.random() < 0.8:
+        # the prompt itself inside an output: mostly keep piece boundaries away from it (a boundary right
+        # behind it is the excluded early-prompt situation; 1 in 5 of these cases still goes there)
+        chunk = params["readChunkSize"]
+        cuts = rng.choice([[], [], [4096] * 4, [5000], [4096, 1, 4096]])
+    return " ".join([hx(prompt), str(chunk), lst(str(c) for c in cuts)] + ops)
 
 
 def run_impl(line):
@@ -173,7 +180,9 @@ def classify(line, obs):
     ks.append("cuts=" + ("none" if not cuts else "all-1" if set(cuts) == {"1"} else "small" if max(map(int, cuts)) < 10 else "mixed"))
     if obs.split("/")[0] in ("unsupported", "tokenizer-mismatch", "init-failed", "init-left-data"):
         return ks + ["obs=" + obs.split("/")[0]]
-    for f, o in zip(_ops(line), obs.split()):
+    vs = ubootimpl.verdicts(line, obs)
+    for i, (f, o) in enumerate(zip(_ops(line), obs.split())):
+        ks.append("verdict=" + (vs[i] if i < len(vs) else "after-stop"))
         ks.append("op=" + f[0] + ("" if f[0] != "e" else ":get" if f[2] == "!" else ":set"))
         v = o.split("/")[0]
         ks.append("res=" + v.split(":")[0] + (":" + v.split(":")[1] if v.startswith("err") else ""))
